@@ -133,6 +133,8 @@ def rule_exit(S, starts, need):
         for b, blk in g.blocks.items():
             if blk.term and len(blk.succ) == 2 and blk.succ[0] != blk.succ[1] and 'cond' in blk.term:
                 c = g.strip(blk.term['cond'], casts=True)
+                while c is not None and c['k'] == 'UnaryOperator' and c.get('op') == '!':
+                    c = g.strip(g.ch(c)[0], casts=True)        # `while (!flag.load())` tests the flag as well
                 if c is not None and c['k'] == 'CXXMemberCallExpr' and c.get('cn') == 'load':
                     q = R.global_ref(g, call_recv(g, c))
                     if q in flags:
@@ -208,6 +210,8 @@ def rule_tbl(S):
                 if v['name'].startswith('__range') and 'init' in v and \
                         R.global_ref(init, v['init']) == 'yakushima::thread_info_table::thread_info_table_':
                     has_range = True
+    counted = R.counted_table_loops(init, 'yakushima::thread_info_table::thread_info_table_')
+    has_range = has_range or bool(counted)
     in_loop = True
     for n in init.all_nodes():
         if n['k'] == 'CXXMemberCallExpr' and (n.get('mcls') == TI):
@@ -215,6 +219,11 @@ def rule_tbl(S):
             ini = R.var_decl_init(init, rv) if rv else None
             ok = ini is not None and any(x['k'] == 'DeclRefExpr' and x.get('name', '').startswith('__begin')
                                          for x in init.walk(ini))
+            # the counted form: the element is TABLE[i] for the induction variable of a whole-table loop
+            ok = ok or (ini is not None and R.indexes_table(init, ini, 'yakushima::thread_info_table::thread_info_table_',
+                                                            set(counted.values()))) or \
+                R.indexes_table(init, call_recv(init, n), 'yakushima::thread_info_table::thread_info_table_',
+                                set(counted.values()))
             in_loop = in_loop and ok
     S.ob('R-TBL', init.qname, 'whole table', has_range and in_loop,
          'the resets are %sapplied to every element of thread_info_table_' % ('' if (has_range and in_loop) else 'NOT '),
